@@ -127,3 +127,40 @@ Proof.
   destruct (fmul_exact _ _ F2 F100) as [G2 M2]; [rewrite E; exact Hm|].
   split; [exact G1|]. split; [exact G2|]. rewrite M2, M1, E. reflexivity.
 Qed.
+
+(* a ratio of two scaled quantities times 100 — the shape of RateOfChange and of FastStochastic's %K *)
+Lemma ratio100_invariant k a b a' b' : scaled k a a' -> scaled k b b' -> FR b <> 0 -> Rabs (FR a / FR b) <= BIG / 256 ->
+  finF ((a / b) * 100)%float /\ finF ((a' / b') * 100)%float /\ FR ((a' / b') * 100)%float = FR ((a / b) * 100)%float.
+Proof.
+  intros Sa Sb Nb Hq.
+  assert (HB : 0 <= BIG) by (unfold BIG; apply bpow_ge_0).
+  destruct (fdiv_scale_ratio k _ _ _ _ Sa Sb Nb ltac:(lra)) as (F1 & F2 & E).
+  assert (F100 : finF 100%float) by reflexivity.
+  assert (R100 : FR 100%float = 100) by (unfold FR; cbn; unfold F2R; cbn; lra).
+  assert (Hq' : Rabs (FR (a / b)%float) <= BIG / 128).
+  { destruct Sa as (Fa & _ & _). destruct (fdiv_exact a b Fa Nb ltac:(lra)) as [_ Eq]. rewrite Eq.
+    destruct (RN_err (FR a / FR b)) as (e & t & He & Ht & ->).
+    pose proof u_le. pose proof eta_le. apply abs_bounds_R in He. apply abs_bounds_R in Ht. apply abs_bounds_R in Hq.
+    assert (1 <= BIG / 256).
+    { unfold BIG. apply Rmult_le_reg_r with 256; [lra|]. unfold Rdiv. rewrite Rmult_assoc, Rinv_l by lra. rewrite Rmult_1_r, Rmult_1_l.
+      apply Rle_trans with (bpow radix2 8); [cbn; lra|apply bpow_le; lia]. }
+    apply Rabs_le. split; nra. }
+  assert (Hm : Rabs (FR (a / b)%float * FR 100%float) <= BIG) by (rewrite R100, Rabs_mult, (Rabs_pos_eq 100) by lra; lra).
+  destruct (fmul_exact _ _ F1 F100 Hm) as [G1 M1].
+  destruct (fmul_exact _ _ F2 F100) as [G2 M2]; [rewrite E; exact Hm|].
+  split; [exact G1|]. split; [exact G2|]. rewrite M2, M1, E. reflexivity.
+Qed.
+
+(* FastStochastic's %K = ((x - lo) / (hi - lo)) * 100 on the window extremes: scaling the three prices by 2^k leaves the value unchanged
+   exactly, whenever the two differences are zero or normal before and after the scaling (and the range does not round to 0) *)
+Theorem fast_formula_pow2_invariant k x lo hi x' lo' hi' : scaled k x x' -> scaled k lo lo' -> scaled k hi hi' ->
+  Rabs (FR x - FR lo) <= BIG -> Rabs ((FR x - FR lo) * bpow radix2 k) <= BIG -> zero_or_normal k (FR x - FR lo) ->
+  Rabs (FR hi - FR lo) <= BIG -> Rabs ((FR hi - FR lo) * bpow radix2 k) <= BIG -> zero_or_normal k (FR hi - FR lo) ->
+  FR (hi - lo)%float <> 0 -> Rabs (FR (x - lo)%float / FR (hi - lo)%float) <= BIG / 256 ->
+  FR (((x' - lo') / (hi' - lo')) * 100)%float = FR (((x - lo) / (hi - lo)) * 100)%float.
+Proof.
+  intros Sx Sl Sh A1 A2 A3 B1 B2 B3 Nz Hq.
+  pose proof (fsub_scale k x lo x' lo' Sx Sl A1 A2 A3) as S1.
+  pose proof (fsub_scale k hi lo hi' lo' Sh Sl B1 B2 B3) as S2.
+  destruct (ratio100_invariant k _ _ _ _ S1 S2 Nz Hq) as (_ & _ & E). exact E.
+Qed.
